@@ -494,7 +494,7 @@ macro_rules! with_array {
 
 pub fn family(kind: &str) -> &'static str {
     match kind {
-        "iter" | "cloned_iter" | "copied_iter" => "ticket",
+        "iter" | "refiter" | "numrefiter" | "cloned_iter" | "copied_iter" => "ticket",
         _ => "counter",
     }
 }
